@@ -79,6 +79,22 @@ def c16(tier, seed):
     for d in summ["c_died"][:3]:
         rep.violation("crash-on-open", f"clockbound_open crashed on '{d['file']}'", {"kind": "files-open", "case": d})
     rep.traces += summ["files"] - len(bad)
+    # the same under an address-space limit: mapping a declared 4 GiB segment fails with ENOMEM, cleanly
+    out2 = os.path.join(cb.WORK, "files_C16_rl.ndjson")
+    p = cb.run([fbin, "open", "--seed", str(seed), "--n", "16", "--out", out2, "--rlimit"], timeout=600)
+    if p.returncode != 0:
+        rep.violation("crash-on-open", f"opening a segment file declaring a huge size under an address-space limit killed the process (rc {p.returncode})", {"kind": "files-open-rlimit"})
+    else:
+        s2 = json.loads(p.stdout.strip().splitlines()[-1])
+        r2 = cb.tlc("OpenTable", "OpenTable.cfg", "open_C16_rl", workers=1, timeout=300, env={"FILES": out2})
+        if checked(r2.out) != s2["files"]:
+            raise ToolError(f"TLC evaluated {checked(r2.out)} of {s2['files']} files (rlimit)")
+        rep.evaluations += s2["files"]
+        rep.notes.append(f"open under RLIMIT_AS = 1 GiB: {s2['files']} files declaring >= 2 GiB, outcomes {s2['outcomes']}")
+        for i in bad_ids(r2.out, "BADOPEN")[:3]:
+            v = line_by_id(out2, i)
+            rep.violation("open-outcome-mmap-failure", f"opening '{v.get('desc')}' with mmap failing returned {v.get('got')}, documented outcome is the failing system call (ENOMEM)", {"kind": "files-open", "file": v})
+        os.remove(out2)
     with open(out) as f:
         for i, line in enumerate(f):
             v = json.loads(line)
